@@ -250,6 +250,7 @@ func execX(fs, hexcode string) wres {
 		return wres{Out: "fault", Kind: "X-empty"}
 	}
 	wrapSyscalls()
+	defer capAddressSpace(3 << 30)()
 	e := vm.NewExecutor(code, feat)
 	// the service around the executor, for SYSCALL: System.Runtime.Serialize / Deserialize / Notify need nothing but the engine, the current
 	// context and the notification list
